@@ -46,7 +46,7 @@ if write:
         try:
             a = os.path.join(tmp, "a", m["file"]); b = os.path.join(tmp, "b", m["file"])
             os.makedirs(os.path.dirname(a)); os.makedirs(os.path.dirname(b))
-            src = open(os.path.join("/repo", m["file"]), "rb").read()
+            src = open(os.path.join(os.environ.get("MUTBASE", "/repo"), m["file"]), "rb").read()
             open(a, "wb").write(src); open(b, "wb").write(src[:m["start"]] + m["new"].encode() + src[m["end"]:])
             d = subprocess.run(["diff", "-ruN", "a", "b"], cwd=tmp, capture_output=True, text=True).stdout
         finally:
